@@ -1,104 +1,4 @@
-(** Refuted full-strength statements of property C09 with their witnesses (each witness is replayed on
-    /repo by tools/props/C09.py and listed in known_findings.d/C09.json).  Compiled separately; never gates. *)
-From Coq Require Import Reals Lra Lia ZArith List String Psatz.
-From OV Require Import Ops RInst Num.OpsC09 Gen.Wavefront Model.Trace Model.M_C09 Spec.S_C09
-     Lemmas.L_C09_sphere Lemmas.L_C09_tilt.
-Import ListNotations.
-Local Open Scope R_scope.
-
-Lemma rad30 : rad (30 * 1) = PI / 6.
-Proof. unfold rad. field. Qed.
-Lemma cos_PI6_pos : 0 < cos (PI / 6).
-Proof. rewrite cos_PI6. apply Rdiv_lt_0_compat; [apply sqrt_lt_R0|]; lra. Qed.
-
-(** D17: a vignetting factor at the field (vy = 1/2).  The ray is launched from the pupil point scaled by
-    (1 - vy)^2 but the tilt term is taken at the unscaled distribution point: the reported difference is
-    NOT the path difference from a common wavefront.
-    Witness: EPD 10, field 30 deg (Hy = 1), pupil point (0, 1): error 10/2 * (1/2 - 1/4 * 1/2) = 15/8 mm. *)
-Theorem tilt_with_vignetting_refuted :
-  exists (c : launchcfg ROps) (w Hy dx dy vx vy p q maxx : R) (r r0 : ray ROps),
-    lc_infinite c = true /\ lc_angle c = true /\ lc_pos1 c = 0 /\
-    0 < lc_EPD c - lc_minpos c + lc_EPL c /\ 0 < cos (rad (lc_maxfield c * Hy)) /\
-    launch c w 0 Hy (scaled (O:=ROps) dx vx) (scaled (O:=ROps) dy vy) vx vy = Some r /\
-    launch c w 0 Hy (scaled (O:=ROps) 0 vx) (scaled (O:=ROps) 0 vy) vx vy = Some r0 /\
-    k_wf_tilt_xy ROps p 0 0 "angle" 0 Hy maxx (lc_maxfield c) (lc_EPD c)
-    - k_wf_tilt_dist ROps q "angle" 0 Hy maxx (lc_maxfield c) dx dy (lc_EPD c)
-    <> (p - q) - plane_wave_path 1 (rL r, rM r, rN r) (rx r0, ry r0, rz r0) (rx r, ry r, rz r).
-Proof.
-  pose proof (launch_inf_unfold lc_example eq_refl eq_refl (55/100) 0 1 (scaled (O:=ROps) 0 0) (scaled (O:=ROps) 1 (1/2)) 0 (1/2)) as Hr.
-  pose proof (launch_inf_unfold lc_example eq_refl eq_refl (55/100) 0 1 (scaled (O:=ROps) 0 0) (scaled (O:=ROps) 0 (1/2)) 0 (1/2)) as Hr0.
-  eexists lc_example, (55/100), 1, 0, 1, 0, (1/2), 0, 0, 0, _, _.
-  assert (Hc : 0 < cos (rad (lc_maxfield lc_example * 1))) by (cbn [lc_maxfield lc_example]; rewrite rad30; exact cos_PI6_pos).
-  assert (HD : 0 < lc_EPD lc_example - lc_minpos lc_example + lc_EPL lc_example) by (cbn; lra).
-  split; [reflexivity|]. split; [reflexivity|]. split; [reflexivity|]. split; [exact HD|]. split; [exact Hc|].
-  split; [exact Hr|]. split; [exact Hr0|].
-  rewrite (tilt_vs_launch lc_example (55/100) 1 0 1 0 (1/2) 0 0 0 (lc_maxfield lc_example) _ _ eq_refl eq_refl eq_refl HD Hc Hr Hr0).
-  cbn [lc_maxfield lc_EPD lc_example]. rewrite rad30, sin_PI6. lra.
-Qed.
-
-(** fields.max_y_field is the SIGNED maximum of the y fields while the launch uses the radial maximum:
-    with fields {0, -30 deg} max_y_field = 0 and the field Hy = -1 gets no tilt term at all. *)
-Theorem tilt_signed_max_field_refuted :
-  exists (c : launchcfg ROps) (w Hy dx dy p q maxx maxy : R) (r r0 : ray ROps),
-    lc_infinite c = true /\ lc_angle c = true /\ lc_pos1 c = 0 /\
-    0 < lc_EPD c - lc_minpos c + lc_EPL c /\ 0 < cos (rad (lc_maxfield c * Hy)) /\
-    launch c w 0 Hy (scaled (O:=ROps) dx 0) (scaled (O:=ROps) dy 0) 0 0 = Some r /\
-    launch c w 0 Hy (scaled (O:=ROps) 0 0) (scaled (O:=ROps) 0 0) 0 0 = Some r0 /\
-    maxy = 0 /\ lc_maxfield c = 30 /\
-    k_wf_tilt_xy ROps p 0 0 "angle" 0 Hy maxx maxy (lc_EPD c)
-    - k_wf_tilt_dist ROps q "angle" 0 Hy maxx maxy dx dy (lc_EPD c)
-    <> (p - q) - plane_wave_path 1 (rL r, rM r, rN r) (rx r0, ry r0, rz r0) (rx r, ry r, rz r).
-Proof.
-  pose proof (launch_inf_unfold lc_example eq_refl eq_refl (55/100) 0 (-1) (scaled (O:=ROps) 0 0) (scaled (O:=ROps) 1 0) 0 0) as Hr.
-  pose proof (launch_inf_unfold lc_example eq_refl eq_refl (55/100) 0 (-1) (scaled (O:=ROps) 0 0) (scaled (O:=ROps) 0 0) 0 0) as Hr0.
-  assert (Hrad : rad (lc_maxfield lc_example * -1) = - (PI / 6)) by (cbn [lc_maxfield lc_example]; unfold rad; field).
-  eexists lc_example, (55/100), (-1), 0, 1, 0, 0, 0, 0, _, _.
-  assert (Hc : 0 < cos (rad (lc_maxfield lc_example * -1))) by (rewrite Hrad, cos_neg; exact cos_PI6_pos).
-  assert (HD : 0 < lc_EPD lc_example - lc_minpos lc_example + lc_EPL lc_example) by (cbn; lra).
-  split; [reflexivity|]. split; [reflexivity|]. split; [reflexivity|]. split; [exact HD|]. split; [exact Hc|].
-  split; [exact Hr|]. split; [exact Hr0|]. split; [reflexivity|]. split; [reflexivity|].
-  rewrite (tilt_vs_launch lc_example (55/100) (-1) 0 1 0 0 0 0 0 0 _ _ eq_refl eq_refl eq_refl HD Hc Hr Hr0).
-  rewrite Hrad, sin_neg, sin_PI6. cbn [lc_EPD lc_example].
-  replace (rad (0 * -1)) with 0 by (unfold rad; field). rewrite sin_0. lra.
-Qed.
-
-(** _get_path_length subtracts the geometric distance image -> sphere: in an image space of index 2 that is
-    not the optical path (witness: chief ray, unit direction, R = 5, recorded path 10: 5 instead of 0) *)
-Theorem path_length_ignores_image_index_refuted :
-  exists (n_img opd xc yc zc Rr L M N : R),
-    L * L + M * M + N * N = 1 /\ 0 <= Rr /\
-    k_wf_get_path_length ROps xc yc zc Rr [opd] [xc] [yc] [zc] [L] [M] [N]
-    <> path_to_sphere 0 opd n_img (t_xp xc yc zc Rr xc yc zc L M N [] [] [] [] [] []).
-Proof.
-  exists 2, 10, 0, 0, 0, 5, 0, 0, 1.
-  split; [ring|]. split; [lra|].
-  pose proof (path_length_unfold 0 0 0 5 10 0 0 0 0 0 1 [] [] [] [] [] [] []) as Hp. cbn [app] in Hp. rops. rewrite Hp.
-  rewrite (image_to_xp_chief 0 0 0 5 0 0 1 [] [] [] [] [] []) by (try ring; lra).
-  unfold path_to_sphere. lra.
-Qed.
-
-(** the tilt term has no object-space index: in an object space of index 2 the subtracted offset is half the
-    optical path from the common wavefront (same witness as the example of L_C09_tilt, no vignetting) *)
-Theorem tilt_ignores_object_index_refuted :
-  exists (n_obj : R) (c : launchcfg ROps) (w Hy dx dy p q maxx : R) (r r0 : ray ROps),
-    lc_infinite c = true /\ lc_angle c = true /\ lc_pos1 c = 0 /\
-    0 < lc_EPD c - lc_minpos c + lc_EPL c /\ 0 < cos (rad (lc_maxfield c * Hy)) /\
-    launch c w 0 Hy (scaled (O:=ROps) dx 0) (scaled (O:=ROps) dy 0) 0 0 = Some r /\
-    launch c w 0 Hy (scaled (O:=ROps) 0 0) (scaled (O:=ROps) 0 0) 0 0 = Some r0 /\
-    k_wf_tilt_xy ROps p 0 0 "angle" 0 Hy maxx (lc_maxfield c) (lc_EPD c)
-    - k_wf_tilt_dist ROps q "angle" 0 Hy maxx (lc_maxfield c) dx dy (lc_EPD c)
-    <> (p - q) - plane_wave_path n_obj (rL r, rM r, rN r) (rx r0, ry r0, rz r0) (rx r, ry r, rz r).
-Proof.
-  pose proof (launch_inf_unfold lc_example eq_refl eq_refl (55/100) 0 1 (scaled (O:=ROps) 0 0) (scaled (O:=ROps) 1 0) 0 0) as Hr.
-  pose proof (launch_inf_unfold lc_example eq_refl eq_refl (55/100) 0 1 (scaled (O:=ROps) 0 0) (scaled (O:=ROps) 0 0) 0 0) as Hr0.
-  eexists 2, lc_example, (55/100), 1, 0, 1, 0, 0, 0, _, _.
-  assert (Hc : 0 < cos (rad (lc_maxfield lc_example * 1))) by (cbn [lc_maxfield lc_example]; rewrite rad30; exact cos_PI6_pos).
-  assert (HD : 0 < lc_EPD lc_example - lc_minpos lc_example + lc_EPL lc_example) by (cbn; lra).
-  split; [reflexivity|]. split; [reflexivity|]. split; [reflexivity|]. split; [exact HD|]. split; [exact Hc|].
-  split; [exact Hr|]. split; [exact Hr0|].
-  rewrite (tilt_matches_launch_partial lc_example (55/100) 1 0 1 0 0 0 _ _ eq_refl eq_refl eq_refl HD Hc Hr Hr0).
-  destruct (launch_dir_y lc_example eq_refl eq_refl (55/100) 1 _ _ 0 0 _ eq_refl HD Hc Hr) as [HL [HM _]].
-  cbn [rL rM rN] in HL, HM.
-  unfold plane_wave_path, dot3, sub3, px, py, pz. cbn [fst snd rx ry rz rL rM rN]. rops.
-  rewrite HL, HM. cbn [lc_maxfield lc_EPD lc_example]. rewrite rad30, sin_PI6. unfold scaled. rops. lra.
-Qed.
+(** Property C09: no refuted statement remains.  The four refutations that stood here before the repairs
+    (vignetting factors ignored by the tilt term, image-space index, object-space index, signed maximum y field)
+    became false when proposed_fixes/C09-*.diff were applied: the corresponding full-strength theorems are
+    tilt_matches_launch, path_length_is_path_to_sphere and opd_definition_infinite / _finite (coq/Props/C09.v). *)
